@@ -2,7 +2,7 @@
    Print Assumptions beneath.  Definitions: C06/Model.v, C06/LibPy.v (tables: C06/Gen.v, regenerated);
    domains: C06/Proofs*.v.  str = list N (code points), Ok/Err = the exception monad. *)
 From Coq Require Import ZArith.
-From Wz Require Import lib.Bytes lib.Utf8 C06.LibPy C06.Gen C06.Model C06.Proofs C06.Proofs2 C06.Proofs3.
+From Wz Require Import lib.Bytes lib.Utf8 C06.LibPy C06.Gen C06.Model C06.Proofs C06.Proofs2 C06.Proofs3 C06.Proofs4 C07.Gen C07.Model C06.Proofs5 C06.Proofs6.
 Open Scope N_scope.
 
 (* the regex texts the hand-written matchers stand for are those of the current source *)
@@ -119,3 +119,122 @@ Print Assumptions C06_age.
 Example C06_age_inhabited : exists s, dump_age 86399999999999%Z = Ok s /\ parse_age s = Ok (Some 86399999999999%Z).
 Proof. eexists. split; vm_compute; reflexivity. Qed.
 Print Assumptions C06_age_inhabited.
+
+(* ------------------------------------------------------------------ normal forms *)
+(* parsing is a normal form for every header text wherever the round trip holds on every value *)
+Theorem C06_list_normal_form : forall h, parse_list_header (dump_header_list (parse_list_header h)) = parse_list_header h.
+Proof. exact list_normal_form. Qed.
+Print Assumptions C06_list_normal_form.
+Theorem C06_set_normal_form : forall h, parse_set_header (dump_set_header (parse_set_header h)) = parse_set_header h.
+Proof. exact set_normal_form. Qed.
+Print Assumptions C06_set_normal_form.
+Theorem C06_quote_normal_form : forall a h,
+  unquote_header_value (quote_header_value a (unquote_header_value h)) = unquote_header_value h.
+Proof. exact quote_normal_form. Qed.
+Print Assumptions C06_quote_normal_form.
+(* dicts: the full normal-form statement is false (header text *=x parses to the empty key, which is written
+   but not read back); it holds whenever the parsed keys are tokens free of a star *)
+Theorem C06_dict_normal_form_refuted :
+  exists h d t d', parse_dict_header h = Ok d /\ dump_header_dict d = Ok t /\ parse_dict_header t = Ok d' /\ d' <> d.
+Proof. exact dict_normal_form_refuted. Qed.
+Print Assumptions C06_dict_normal_form_refuted.
+Theorem C06_dict_normal_form_partial : forall h d, parse_dict_header h = Ok d -> dict_domain d = true ->
+  exists t, dump_header_dict d = Ok t /\ parse_dict_header t = parse_dict_header h.
+Proof. exact dict_normal_form_partial. Qed.
+Print Assumptions C06_dict_normal_form_partial.
+Theorem C06_etags_normal_form_partial : forall h e, parse_etags h = Ok e -> etag_domain e = true ->
+  parse_etags (etags_to_header e) = parse_etags h.
+Proof. exact etags_normal_form_partial. Qed.
+Print Assumptions C06_etags_normal_form_partial.
+Theorem C06_options_normal_form_partial : forall s h o, parse_options_header s = Ok (h, o) -> opt_domain h o = true ->
+  exists t, dump_options_header h o = Ok t /\ parse_options_header t = parse_options_header s.
+Proof. exact options_normal_form_partial. Qed.
+Print Assumptions C06_options_normal_form_partial.
+Example C06_normal_form_inhabited :
+  (exists d, parse_dict_header [97; 61; 34; 98; 32; 99; 34; 44; 32; 100] = Ok d /\ dict_domain d = true)
+  /\ (exists e, parse_etags [34; 97; 34; 44; 32; 87; 47; 34; 98; 34] = Ok e /\ etag_domain e = true)
+  /\ (exists h o, parse_options_header [116; 47; 104; 59; 32; 67; 61; 34; 120; 32; 121; 34] = Ok (h, o) /\ opt_domain h o = true).
+Proof. repeat split; eexists; try eexists; split; vm_compute; reflexivity. Qed.
+Print Assumptions C06_normal_form_inhabited.
+
+(* ------------------------------------------------------------------ Content-Security-Policy *)
+(* directives without blank or ';', values stripped, non-empty and free of ';' *)
+Theorem C06_csp : forall d, csp_domain d = true -> parse_csp (dump_csp d) = d.
+Proof. exact csp_roundtrip. Qed.
+Print Assumptions C06_csp.
+Example C06_csp_inhabited :
+  csp_domain [([100; 101; 102; 45; 115; 114; 99], [39; 115; 101; 108; 102; 39; 32; 104; 116; 116; 112; 115; 58]); ([105; 109; 103], [42])] = true.
+Proof. vm_compute. reflexivity. Qed.
+Print Assumptions C06_csp_inhabited.
+
+(* ------------------------------------------------------------------ Cache-Control *)
+(* for every typed property found in the source (key, empty value, type regenerated into cc_properties):
+   set it to a value of its documented type on any directive set, serialise, parse: the same directive set
+   comes back and the property reads the value that was set *)
+Theorem C06_cache_control : forall p d v d' h, In p cc_properties -> dict_domain d = true ->
+  cc_value_ok v (cc_empty_of (snd (fst p))) (cc_type_of (snd p)) = true ->
+  cc_set d (fst (fst p)) v (cc_type_of (snd p)) = Ok d' -> dump_header_dict d' = Ok h ->
+  parse_dict_header h = Ok d' /\ cc_get d' (fst (fst p)) (cc_empty_of (snd (fst p))) (cc_type_of (snd p)) = v.
+Proof. exact cc_roundtrip_all. Qed.
+Print Assumptions C06_cache_control.
+Example C06_cache_control_inhabited :
+  (15 <=? N.of_nat (length cc_properties)) = true
+  /\ In ([109; 97; 120; 45; 97; 103; 101], 0, 1) cc_properties
+  /\ cc_value_ok (CvInt 3600) (cc_empty_of 0) (cc_type_of 1) = true
+  /\ exists d' h, cc_set [([112; 117; 98; 108; 105; 99], None)] [109; 97; 120; 45; 97; 103; 101] (CvInt 3600) (cc_type_of 1) = Ok d'
+                 /\ dump_header_dict d' = Ok h.
+Proof.
+  split; [vm_compute; reflexivity|]. split; [vm_compute; tauto|]. split; [reflexivity|].
+  eexists. eexists. split; vm_compute; reflexivity.
+Qed.
+Print Assumptions C06_cache_control_inhabited.
+
+(* ------------------------------------------------------------------ Base64 and the auth schemes *)
+(* binascii.a2b_base64 (non-strict, as b64decode calls it) inverts b64encode on every byte string *)
+Theorem C06_base64 : forall b, forallb (fun c => c <? 256) b = true -> a2b_base64 (b64encode b) 0 0 0 = Ok b.
+Proof. exact (fun b H => b64_roundtrip (length b) b (le_n _) H). Qed.
+Print Assumptions C06_base64.
+(* Basic credentials over Unicode user / password without ':' in the user name *)
+Theorem C06_auth_basic : forall username password,
+  valid_text username = true -> valid_text password = true -> mem COLON username = false ->
+  authorization_from_header (basic_to_header username password)
+  = Ok (Some {| a_type := s_basic; a_params := [(s_username, Some username); (s_password, Some password)]; a_token := None |}).
+Proof. exact basic_roundtrip. Qed.
+Print Assumptions C06_auth_basic.
+Example C06_auth_basic_inhabited :
+  valid_text [252; 115; 101; 114] = true /\ valid_text [112; 58; 8364] = true /\ mem COLON [252; 115; 101; 114] = false.
+Proof. repeat split; vm_compute; reflexivity. Qed.
+Print Assumptions C06_auth_basic_inhabited.
+(* token schemes (Bearer ...), request and response side: lower-case ASCII scheme, stripped token whose '=' are trailing *)
+Theorem C06_auth_token : forall scheme tok,
+  scheme_ok scheme = true -> negb (list_eqb scheme s_basic) = true -> auth_token_ok tok = true ->
+  authorization_from_header (token_to_header scheme tok) = Ok (Some {| a_type := scheme; a_params := []; a_token := Some tok |})
+  /\ www_authenticate_from_header (token_to_header scheme tok) = Ok (Some {| a_type := scheme; a_params := []; a_token := Some tok |}).
+Proof. exact token_roundtrip. Qed.
+Print Assumptions C06_auth_token.
+Example C06_auth_token_inhabited :
+  scheme_ok [98; 101; 97; 114; 101; 114] = true /\ negb (list_eqb [98; 101; 97; 114; 101; 114] s_basic) = true
+  /\ auth_token_ok [97; 46; 98; 45; 99; 61; 61] = true.
+Proof. repeat split; vm_compute; reflexivity. Qed.
+Print Assumptions C06_auth_token_inhabited.
+
+(* ------------------------------------------------------------------ HTTP dates *)
+(* the fixed-width text codec over the UTC field tuple (weekday and month names, zero-padded fields) *)
+Theorem C06_date_codec : forall f, fields_ok f = true ->
+  parse_http_date (format_http_date f) = Some (f_day f, f_mon f, f_year f, f_hour f, f_min f, f_sec f).
+Proof. exact date_codec. Qed.
+Print Assumptions C06_date_codec.
+Example C06_date_codec_inhabited :
+  fields_ok {| f_wday := 3; f_day := 1; f_mon := 1; f_year := 2026; f_hour := 0; f_min := 59; f_sec := 60 |} = true.
+Proof. vm_compute. reflexivity. Qed.
+Print Assumptions C06_date_codec_inhabited.
+(* http_date / parse_date over any calendar: an instant type whose UTC field view lies in range and is inverted
+   by the constructor (the contract email.utils and datetime are trusted to satisfy; checked by the harness) *)
+Theorem C06_date_roundtrip : forall (instant : Type) (fields_of : instant -> date_fields)
+  (instant_of : N * N * N * N * N * N -> option instant),
+  (forall i, fields_ok (fields_of i) = true) ->
+  (forall i, instant_of (f_day (fields_of i), f_mon (fields_of i), f_year (fields_of i),
+                         f_hour (fields_of i), f_min (fields_of i), f_sec (fields_of i)) = Some i) ->
+  forall i, parse_date_m instant instant_of (http_date_m instant fields_of i) = Some i.
+Proof. exact date_roundtrip. Qed.
+Print Assumptions C06_date_roundtrip.
